@@ -83,6 +83,19 @@ func (g *Gen) anyEmitKind() Kind {
 // simpleStmt generates one non-compound statement (possibly with a declaration before it).
 func (g *Gen) simpleStmt() []Stmt {
 	g.stmts++
+	if g.F.Calls && g.R.Intn(40) == 0 {
+		// a store whose object is a literal (a string, a number, nil, a boolean): it
+		// fails, it does not land in some table
+		obj := []Expr{Str("abc"), Num(5), &ENil{}, &ETrue{}, Str("")}[g.R.Intn(5)]
+		var lhs Expr = Dot(&EParen{X: obj}, "x")
+		if g.R.Intn(2) == 0 {
+			lhs = Idx(&EParen{X: obj}, Num(1))
+		}
+		witness := g.fresh("wt")
+		g.cover("assign:literal-object")
+		return []Stmt{Local1(witness, &ETable{}),
+			CallSN("emit", Str("literal-object-store"), &EParen{X: CallN("pcall", Fn(nil, false, Blk(Assign1(lhs, Num(1)))))}, Dot(N(witness), "x"), Idx(N(witness), Num(1)))}
+	}
 	switch g.R.Intn(12) {
 	case 0, 1, 2:
 		return []Stmt{g.emitStmt()}
